@@ -383,3 +383,13 @@ V('E10_extend_ignores_byte_order', ['C18'], 'array_.py', "            if self._d
 V('F2_alias_of_cached_list', ['C09', 'C02', 'C15'], 'methods.py', "            _, tkns = tokenparser(f_item, tuple(sorted(kwargs.keys())))\n            tokens.extend(tkns)", "            _, tkns = tokenparser(f_item, tuple(sorted(kwargs.keys())))\n            if tokens:\n                tokens.extend(tkns)\n            else:\n                tokens = tkns", ['F2'])
 V('A6_tobitarray_readonly_alias', ['C04', 'C08'], 'bits.py', "            return self._bitstore._bitarray.copy()", "            ba = self._bitstore._bitarray\n            return ba if ba.readonly else ba.copy()", ['A6'])
 V('A7_bytesio_read', ['C08', 'C13'], 'bits.py', "            self._bitstore = BitStore.frombytes(s.getvalue())\n        elif isinstance(s, io.BufferedReader):", "            self._bitstore = BitStore.frombytes(s.read())\n        elif isinstance(s, io.BufferedReader):", ['A7'])
+
+# ------------------------------------------------------------------ C05 / PK
+V('PK_too_many_ignored', ['C05'], 'methods.py', "    raise CreationError(f\"Too many parameters present to pack according to the format. Only {len(tokens)} values were expected.\")", "    s = BitStream()\n    for b in bsl:\n        s._bitstore += b\n    return s", ['PK'])
+V('PK_too_few_pads', ['C05'], 'methods.py', "    except StopIteration:\n        raise CreationError(f\"Not enough parameters present to pack according to the \"\n                            f\"format. {len(tokens)} values are needed.\")", "    except StopIteration:\n        pass", ['PK'])
+V('PK_parse_error_not_converted', ['C05', 'C20'], 'methods.py', "    except ValueError as e:\n        raise CreationError(*e.args)\n    value_iter", "    except KeyError as e:\n        raise CreationError(*e.args)\n    value_iter", ['PK'])
+V('PK_reverse_unconditional', ['C05', 'C12'], 'methods.py', "        if bitstring.options.lsb0:\n            bsl.reverse()", "        bsl.reverse()", ['PK'])
+V('PK_string_route_own_builder', ['C05'], 'bitstore_helpers.py', "    for token in tokens:\n        bs += bitstore_from_token(*token)\n    bs.immutable = True", "    for name, length, value in tokens:\n        bs += literal_bit_funcs[name](value) if name in literal_bit_funcs else bitstring.dtypes.Dtype(name, length).build(value)._bitstore\n    bs.immutable = True", ['PK'])
+V('PK_readlist_own_split', ['C05'], 'bits.py', "                token_list = utils.preprocess_tokens(f_item)\n                for t in token_list:", "                token_list = [t.strip() for t in f_item.split(',')]\n                for t in token_list:", ['PK'])
+V('H4_struct_fastpath_sign_typo', ['C02', 'C18'], 'bits.py', "    def _getintle(self) -> int:\n        \"\"\"Interpret as a little-endian signed int.\"\"\"", "    def _getintle(self) -> int:\n        \"\"\"Interpret as a little-endian signed int.\"\"\"\n        if len(self) == 32:\n            return struct.unpack('<I', self._bitstore.tobytes())[0]", ['H4'])
+S('PK_S_rename_value_iter', ['C05'], 'methods.py', fn=rename_local('value_iter', 'remaining_values'))
